@@ -66,6 +66,21 @@
 (* under a positive scaling of one body about the origin, and the reported  *)
 (* volume is then not compared (rep.novol).                                 *)
 (*                                                                         *)
+(* Audit extensions.  A fill record may have ANY number of faces removed as   *)
+(* long as what is left is a manifold with boundary: the hole edges then     *)
+(* fall into disjoint simple cycles, and only those of length 3 or 4 are     *)
+(* "missing triangles or quads" that must be closed; longer holes may be     *)
+(* left as they are.  op "fillfix" is the composite fill_holes() then        *)
+(* fix_normals() on a solid of which faces were removed AND survivors        *)
+(* re-wound: the holes must be closed and the whole a consistently wound     *)
+(* positive solid again.  Subdivide records may carry the index dict of      *)
+(* remesh.subdivide(return_index=True) (ridx: rows <<original face, its four *)
+(* new face ids>>) and may start from the real result of a first round       *)
+(* (pre_ok says that result was a proper mesh).  fix records may carry a     *)
+(* history (reads, invert(), a first fix_normals()) before the judged call.  *)
+(* rep.tri: mesh.triangles of the result over den (an observation point).    *)
+(* Deviation tags name input-only predicates of findings (known or not).     *)
+(*                                                                         *)
 (* "rep" holds what the result object itself reports (is_watertight,       *)
 (* is_winding_consistent, euler_number, 6 den^3 volume, 1000 * face        *)
 (* normals): the observation points the property names.  They are          *)
@@ -196,6 +211,8 @@ RepClause(c, V1, F1) ==
     ELSE IF Len(r.nrm) # 0 /\ (Len(r.nrm) # Len(F1) \/
                 \E k \in 1..Len(F1) : Dot(r.nrm[k], FaceCross(Tri(V1, F1[k]))) <= 0)
          THEN "reported_face_normal_against_the_winding"
+    ELSE IF Len(r.tri) # 0 /\ (Len(r.tri) # Len(F1) \/ \E k \in 1..Len(F1) : r.tri[k] # Tri(V1, F1[k]))
+         THEN "reported_triangles_not_those_of_result"
     ELSE "ok"
 
 \* ------------------------------------------------------------------ subdivide
@@ -206,7 +223,8 @@ SubdivideClause(c) ==
         sel == Range(c.sel)
         all == sel = 0..(Len(F0) - 1)
     IN
-    IF c.off # "" THEN "result_offlattice_" \o c.off
+    IF ~c.pre_ok THEN "first_round_result_not_a_proper_mesh"
+    ELSE IF c.off # "" THEN "result_offlattice_" \o c.off
     ELSE IF ~InRange(F1, Len(V1)) THEN "result_face_index_out_of_range"
     ELSE IF \E p \in Range(V0) : PosCount(V1, p) < PosCount(V0, p) THEN "subdivide_lost_an_original_vertex"
     ELSE IF VolPair(V1, F1) # VolPair(V0, F0) THEN "subdivide_changed_the_volume"
@@ -215,6 +233,13 @@ SubdivideClause(c) ==
     ELSE IF all /\ Watertight(F1) # Watertight(F0) THEN "subdivide_all_changed_watertightness"
     ELSE IF all /\ Euler(F1) # Euler(F0) THEN "subdivide_all_changed_the_euler_number"
     ELSE IF PosBag(V1, F1) # BagOf(KeysOf(ExpectedSplit(V0, F0, sel))) THEN "subdivide_not_the_midpoint_split_of_selected"
+    \* return_index: one row <<original face, four new face ids>> per selected face, naming its children
+    ELSE IF c.ri /\ ({r[1] : r \in Range(c.ridx)} # sel \/ Len(c.ridx) # Cardinality(sel)
+                     \/ \E r \in Range(c.ridx) : Len(r) # 5 \/ \E j \in 2..5 : r[j] \notin 0..(Len(F1) - 1))
+         THEN "subdivide_index_shape"
+    ELSE IF c.ri /\ \E r \in Range(c.ridx) :
+              BagOf(KeysOf([j \in 1..4 |-> Tri(V1, F1[r[j + 1] + 1])])) # BagOf(KeysOf(Children(Tri(V0, F0[r[1] + 1]))))
+         THEN "subdivide_index_not_the_children_of_its_face"
     ELSE RepClause(c, V1, F1)
 
 \* --------------------------------------------------------- subdivide_to_size
@@ -288,6 +313,7 @@ FixClause(c) ==
         wantPositive == applicable /\ (c.api \in PerBodyApis \/ (c.api \in WholeMeshApis /\ Cardinality(Bodies(F0)) = 1))
     IN
     IF c.off # "" THEN "result_offlattice_" \o c.off
+    ELSE IF ~c.pre_ok THEN "history_before_fix_is_not_the_recorded_mesh"
     ELSE IF c.den # 1 \/ c.v1 # V THEN "fix_moved_a_vertex"
     ELSE IF ~InRange(F1, Len(V)) THEN "result_face_index_out_of_range"
     ELSE IF UnorientedBag(F1) # UnorientedBag(F0) THEN "fix_changed_the_triangle_set"
@@ -300,14 +326,27 @@ FixClause(c) ==
 Coplanar(V, F, G) ==
     LET g == CHOOSE k \in G : TRUE  t == Tri(V, F[g])  n == FaceCross(t) IN
     \A k \in G : \A j \in 1..3 : Dot(Sub(Pt(V, F[k][j]), t[1]), n) = 0
+\* the edges of the hole(s): on the border of what is left, shared by two faces before the removal
+HoleEdges(FB, F0) == LET S0 == UndOf(DirEdges(F0))  SB == UndOf(DirEdges(FB))
+                     IN {e \in Range(S0) : Count(S0, e) = 1 /\ Count(SB, e) = 2}
+\* connected components of the hole boundary, as sets of vertices
+HoleComps(hole) == LET hv == UNION {{e[1], e[2]} : e \in hole}
+                       nb == [x \in hv |-> {y \in hv : Sorted(<<x, y>>) \in hole}]
+                   IN Comps(hv, nb)
+HoleNbrs(hole, x) == {y \in UNION {{e[1], e[2]} : e \in hole} : Sorted(<<x, y>>) \in hole}
+\* a missing triangle or quad: a simple cycle of three or four hole edges
+Fillable(C, hole) == Cardinality(C) \in {3, 4} /\ \A x \in C : Cardinality(HoleNbrs(hole, x)) = 2
+FillableEdges(hole) == LET good == {C \in HoleComps(hole) : Fillable(C, hole)}
+                       IN {e \in hole : \E C \in good : e[1] \in C}
 FillClause(c) ==
     LET V == c.v0  FB == c.fb  F0 == c.f0  V1 == c.v1  F1 == c.f1
         S0 == UndOf(DirEdges(F0))  SB == UndOf(DirEdges(FB))
-        hole == {e \in Range(S0) : Count(S0, e) = 1 /\ Count(SB, e) = 2}
-        hverts == UNION {{e[1], e[2]} : e \in hole}
+        holeAll == HoleEdges(FB, F0)
+        hole == FillableEdges(holeAll)              \* must be closed
+        hverts == UNION {{e[1], e[2]} : e \in holeAll}
         B0 == IndexBag(F0)
         removed == {r + 1 : r \in Range(c.removed)}
-        planar == \A G \in Groups(FB, removed) : Coplanar(V, FB, G)
+        planar == hole = holeAll /\ \A G \in Groups(FB, removed) : Coplanar(V, FB, G)
     IN
     IF c.off # "" THEN "result_offlattice_" \o c.off
     ELSE IF ~c.pre_ok THEN "history_before_fill_is_not_the_inverted_mesh"
@@ -317,12 +356,37 @@ FillClause(c) ==
     IF \E x \in DOMAIN B0 : BagGet(B1, x) < B0[x] THEN "fill_lost_or_rewound_a_surviving_face"
     ELSE IF \E e \in hole : Count(S1, e) < 2 THEN "fill_left_a_missing_triangle_or_quad_open"
     ELSE IF \E e \in Range(S1) : Count(S1, e) > 2 THEN "fill_put_a_third_face_on_an_edge"
-    ELSE IF \E e \in Range(S1) : Count(S1, e) = 1 /\ Count(SB, e) # 1 THEN "fill_opened_a_new_boundary"
+    ELSE IF \E e \in Range(S1) : Count(S1, e) = 1 /\ Count(SB, e) # 1 /\ e \notin holeAll \ hole
+         THEN "fill_opened_a_new_boundary"
     ELSE IF \E x \in DOMAIN B1 : B1[x] > BagGet(B0, x) /\ ~(KeyVerts(x) \subseteq hverts)
          THEN "fill_added_a_face_off_the_hole_boundary"
     ELSE IF ~WindingConsistent(F1) THEN "fill_new_face_wound_like_its_neighbour"
     ELSE IF planar /\ VolPair(V1, F1) # VolPair(V, FB) THEN "fill_of_planar_hole_changed_the_volume"
     ELSE IF c.ret # Watertight(F1) THEN "fill_return_value_not_watertightness_after"
+    ELSE RepClause(c, V1, F1)
+
+\* fill_holes() then fix_normals() on a solid with faces removed and survivors re-wound
+FillFixClause(c) ==
+    LET V == c.v0  FB == c.fb  F0 == c.f0  V1 == c.v1  F1 == c.f1
+        holeAll == HoleEdges(FB, F0)
+        hole == FillableEdges(holeAll)
+        U0 == UnorientedBag(F0)
+        removed == {r + 1 : r \in Range(c.removed)}
+        planar == hole = holeAll /\ \A G \in Groups(FB, removed) : Coplanar(V, FB, G)
+    IN
+    IF c.off # "" THEN "result_offlattice_" \o c.off
+    ELSE IF c.den # 1 \/ Len(V1) < Len(V) \/ SubSeq(V1, 1, Len(V)) # V THEN "fill_moved_a_vertex"
+    ELSE IF ~InRange(F1, Len(V1)) THEN "result_face_index_out_of_range"
+    ELSE LET S1 == UndOf(DirEdges(F1))  U1 == UnorientedBag(F1) IN
+    IF \E x \in DOMAIN U0 : BagGet(U1, x) < U0[x] THEN "fillfix_lost_a_surviving_triangle"
+    ELSE IF \E e \in hole : Count(S1, e) < 2 THEN "fill_left_a_missing_triangle_or_quad_open"
+    ELSE IF \E e \in Range(S1) : Count(S1, e) > 2 THEN "fill_put_a_third_face_on_an_edge"
+    ELSE IF hole = holeAll /\ Watertight(FB) /\ ~Watertight(F1) THEN "fillfix_result_not_watertight"
+    ELSE IF hole = holeAll /\ Watertight(FB) /\ ~WindingConsistent(F1) THEN "fix_left_a_shared_edge_wound_the_same_way"
+    \* (a non-planar quad closed along its other diagonal may enclose no volume at all: only planar holes)
+    ELSE IF planar /\ Watertight(FB) /\ \E B \in Bodies(F1) : Vol6On(V1, F1, B, Zero3) <= 0
+         THEN "fix_left_a_body_without_positive_volume"
+    ELSE IF planar /\ Watertight(FB) /\ VolPair(V1, F1) # VolPair(V, FB) THEN "fill_of_planar_hole_changed_the_volume"
     ELSE RepClause(c, V1, F1)
 
 Clause(c) ==
@@ -331,6 +395,7 @@ Clause(c) ==
       [] c.op = "loop" -> LoopClause(c)
       [] c.op = "fix" -> FixClause(c)
       [] c.op = "fill" -> FillClause(c)
+      [] c.op = "fillfix" -> FillFixClause(c)
       [] OTHER -> "unknown_operation"
 
 \* ---------------------------------------------------------- named deviations (as built)
@@ -339,12 +404,36 @@ Clause(c) ==
 \* not share, or the two they shared - is already joined by an edge of the surviving mesh.  fill_holes
 \* splits the 4-cycle along an arbitrary diagonal (and refuses a mesh of fewer than three faces).
 QuadDiagonalIsExistingEdge(c) ==
-    /\ c.op = "fill" /\ Len(c.removed) = 2
-    /\ LET A == Range(c.fb[c.removed[1] + 1])  B == Range(c.fb[c.removed[2] + 1])
-           S0 == Range(UndOf(DirEdges(c.f0)))
-       IN /\ Cardinality(A \cap B) = 2 /\ Cardinality(A \cup B) = 4
+    /\ c.op \in {"fill", "fillfix"}
+    /\ LET S0 == Range(UndOf(DirEdges(c.f0)))  hole == HoleEdges(c.fb, c.f0) IN
+       \E a, b \in Range(c.removed) : a < b /\
+          LET A == Range(c.fb[a + 1])  B == Range(c.fb[b + 1]) IN
+          /\ Cardinality(A \cap B) = 2 /\ Cardinality(A \cup B) = 4
+          \* the two faces alone make the hole: their four outer edges are hole edges
+          /\ (FaceEdgeSet(c.fb, a + 1) \cup FaceEdgeSet(c.fb, b + 1)) \ (FaceEdgeSet(c.fb, a + 1) \cap FaceEdgeSet(c.fb, b + 1))
+                \subseteq hole
           /\ \E d \in {A \cap B, (A \cup B) \ (A \cap B)} : \E x, y \in d : x < y /\ <<x, y>> \in S0
-Deviation(c) == IF QuadDiagonalIsExistingEdge(c) THEN "QDE" ELSE ""
+\* "QSA" (finding FillHolesQuadStraightAngle): a quad hole three consecutive corners of which are collinear; split
+\* along the diagonal that joins the ends of the straight angle one new face has no area, is dropped, and the
+\* hole stays open.
+QuadHoleWithStraightAngle(c) ==
+    /\ c.op \in {"fill", "fillfix"}
+    /\ LET hole == HoleEdges(c.fb, c.f0) IN
+       \E C \in HoleComps(hole) : Cardinality(C) = 4 /\ Fillable(C, hole) /\
+          \E x \in C : \E y, z \in HoleNbrs(hole, x) : y < z /\
+              Cross(Sub(Pt(c.v0, y), Pt(c.v0, x)), Sub(Pt(c.v0, z), Pt(c.v0, x))) = Zero3
+\* input-only predicates of the findings of the coverage audit (containers / dtypes / options)
+SubdivideFaceIndexTuple(c) == c.op = "subdivide" /\ c.form = "tuple"
+SubdivideUnsigned64Faces(c) == c.op = "subdivide" /\ c.fdt = "uint64"
+SubdivideFlatVertexAttribute(c) == c.op = "subdivide" /\ c.cfg = "vattr1d"
+LoopUnreferencedVertex(c) == c.op = "loop" /\ Referenced(c.f0) # 0..(Len(c.v0) - 1)
+Deviation(c) == IF QuadDiagonalIsExistingEdge(c) THEN "QDE"
+                ELSE IF QuadHoleWithStraightAngle(c) THEN "QSA"
+                ELSE IF SubdivideFaceIndexTuple(c) THEN "SFT"
+                ELSE IF SubdivideUnsigned64Faces(c) THEN "SU64"
+                ELSE IF SubdivideFlatVertexAttribute(c) THEN "SVA1"
+                ELSE IF LoopUnreferencedVertex(c) THEN "LUV"
+                ELSE ""
 
 Init == i = 1
 Next == i < Len(Cases) /\ i' = i + 1
@@ -379,13 +468,23 @@ InputSane ==
     /\ c.op = "fill" =>
          /\ ProperMesh(V, c.fb) /\ WindingConsistent(c.fb)
          /\ c.sgn \in {1, -1} /\ (c.closed => SolidBodiesS(V, c.fb, c.sgn))
-         /\ Cardinality(Range(c.removed)) = Len(c.removed) /\ Len(c.removed) \in {1, 2}
+         /\ Cardinality(Range(c.removed)) = Len(c.removed) /\ Len(c.removed) >= 1
          /\ Range(c.removed) \subseteq 0..(Len(c.fb) - 1)
          \* a hole, not a notch in the border: every edge of a removed face was shared by two faces
          /\ LET SB == UndOf(DirEdges(c.fb)) IN
             \A r \in Range(c.removed) : \A e \in FaceEdgeSet(c.fb, r + 1) : Count(SB, e) = 2
          /\ F = SelectSeq([k \in 1..Len(c.fb) |-> IF (k - 1) \in Range(c.removed) THEN <<>> ELSE c.fb[k]],
                           LAMBDA f : f # <<>>)
+    /\ c.op = "fillfix" =>
+         /\ ProperMesh(V, c.fb) /\ WindingConsistent(c.fb) /\ (c.closed => SolidBodies(V, c.fb))
+         /\ Cardinality(Range(c.removed)) = Len(c.removed) /\ Len(c.removed) >= 1
+         /\ Range(c.removed) \subseteq 0..(Len(c.fb) - 1)
+         /\ LET SB == UndOf(DirEdges(c.fb)) IN
+            \A r \in Range(c.removed) : \A e \in FaceEdgeSet(c.fb, r + 1) : Count(SB, e) = 2
+         \* the survivors, in order, each possibly re-wound
+         /\ [k \in 1..Len(F) |-> Range(F[k])]
+              = SelectSeq([k \in 1..Len(c.fb) |-> IF (k - 1) \in Range(c.removed) THEN {} ELSE Range(c.fb[k])],
+                          LAMBDA f : f # {})
 
 \* ------------------------------------------------------- laws of the reference itself
 \* the children tile their parent: signed volumes add up, every child has a quarter of the vector
